@@ -408,6 +408,11 @@ impl CommitPipeline {
 		&self.oracle
 	}
 
+	#[cfg(surrealkv_verif)]
+	pub(crate) fn verif_oracle(&self) -> &Arc<CommitOracle> {
+		&self.oracle
+	}
+
 	fn publish(&self) {
 		// Multi-consumer publish loop
 		loop {
